@@ -3,7 +3,7 @@
 From Coq Require Import List Arith Bool.
 From M Require Import Base Flat Hsm HsmSpec.
 From P Require Import HsmForest HsmResolve HsmOffer MonadP CrashGen HsmExec.
-From P Require HsmIff HsmDecl HsmReach HsmTotal HsmOrder.
+From P Require HsmIff HsmDecl HsmReach HsmTotal HsmOrder HsmPar HsmParCor.
 Import ListNotations.
 
 (* ---------- transition resolution ---------- *)
@@ -56,6 +56,20 @@ Print Assumptions C03_exit_set.
 Print Assumptions C03_exit_below_base.
 Print Assumptions C03_enter_set.
 Print Assumptions C03_enter_below_base.
+
+(* C03_exit_set without its side conditions: on machines with duplicate-free initial lists whose parallel states
+   enter all their regions (HsmPar.full_par_defs, decidable), in every configuration reachable from the one
+   add_model creates, for every declaring scope and registered destination *)
+Theorem C03_exit_set_reachable :
+  forall (hm : hmachine), HsmReach.wf_defs hm = true -> HsmPar.full_par_defs hm = true ->
+  forall (f : forest) (sc dst : path) (dd : sdefn) (r : resolution) (root rest : path),
+    HsmParCor.reachable hm f -> find_def (scope_children hm sc) dst = Some dd -> resolve f sc dst dd = Some r ->
+    split_active f sc dst = (root, rest) ->
+    forall scoped q, sub f (sc ++ root) = Some scoped -> q <> [] ->
+      (In ((sc ++ root) ++ q) (r_exits r) <->
+         active scoped q = true /\ (Nat.ltb 1 (length scoped) = true -> hd 0 q = hd 0 rest)).
+Proof. exact HsmParCor.exit_set_reachable. Qed.
+Print Assumptions C03_exit_set_reachable.
 
 (* other parallel regions are untouched: every subtree that neither contains base nor lies
    below it is literally the same afterwards *)
